@@ -150,9 +150,10 @@ def build(cfg, driver, extra_src=(), extra_cflags=(), extra_ld=()):
             shutil.rmtree(odir, ignore_errors=True)
             log("built library cfg=%s (%d files, %.1fs)" % (cfg, len(objs), time.time() - t0))
         dkey = sha(libkey, harness_hash(), " ".join(extra_src), " ".join(extra_cflags), " ".join(extra_ld))
-        exe = os.path.join(cdir, "%s-%s" % (driver, dkey))
+        variant = sha(" ".join(extra_src), " ".join(extra_cflags), " ".join(extra_ld))[:5]
+        exe = os.path.join(cdir, "%s-%s-%s" % (driver, variant, dkey))
         if not os.path.exists(exe):
-            for old in glob.glob(os.path.join(cdir, driver + "-*")):
+            for old in glob.glob(os.path.join(cdir, "%s-%s-*" % (driver, variant))):
                 os.unlink(old)
             t0 = time.time()
             srcs = [os.path.join(HARNESS, driver + ".c")] + [os.path.join(HARNESS, s) for s in extra_src]
@@ -259,7 +260,7 @@ def run_one(exe, args, timeout, env=None, wrapper=None):
                 tail += " | " + sm.group(1)[:200]
             first[4] = tail
             restarts += 1
-            if restarts > 40 or "--only" in a:
+            if restarts > 400 or "--only" in a:
                 return res
             frm = first[0] + 1
             continue
